@@ -53,8 +53,8 @@ def eexec_layouts(ctx, q, only=None, how_prefix=""):
         summ = ctx.vh_json("replay-eexec", "-base", os.path.join(d, base), "-seed", ctx.seed + k, os.path.join(d, out))
         if only is not None:
             keep = tuple("plaintext#%d " % p for p in only)
-            summ["by_sig"] = {s: n for s, n in summ["by_sig"].items() if any(x in s for x in keep)}
-            summ["disagreements"] = [g for g in summ["disagreements"] if any(x in g["sig"] for x in keep)]
+            summ["by_sig"] = {s: n for s, n in (summ.get("by_sig") or {}).items() if any(x in s for x in keep)}
+            summ["disagreements"] = [g for g in (summ.get("disagreements") or []) if any(x in g["sig"] for x in keep)]
         pscommon.absorb(ctx, summ, how_prefix + "vh replay-eexec (seed %d)" % (ctx.seed + k), "MC_Eexec / PSMachine!ExecOp eexec")
         total = summ
     ctx.extra["eexec_layouts"] = total["vectors"]
